@@ -34,6 +34,7 @@ class Axes:
         self.vec: Set[int] = set()             # ids of 2-vectors (axis0, axis1)
         self.terms: Dict[int, T] = {}
         self.why: Dict[Tuple[int, int], str] = {}
+        self.why_all: Dict[Tuple[int, str, int], str] = {}
         self.use_names = use_names
         for r in roots:
             self._collect(r)
@@ -70,6 +71,7 @@ class Axes:
             return False
         s.add((role, axis))
         self.why.setdefault((t.id, axis), why)
+        self.why_all.setdefault((t.id, role, axis), why)
         return True
 
     def ext(self, t: T, axis: int, why: str) -> bool:
@@ -333,4 +335,16 @@ class Axes:
             elif nm in FIELD_AXIS and self.kind(pv) is None:
                 self.add(pv, FIELD_AXIS[nm], f"bound to parameter '{pn}' of {f.name}")
         self._propagate()
+        return out
+
+    def contradictions(self):
+        """Terms that are the extent of axis 0 by one fact and of axis 1 by another, one of the facts
+        being the naming convention (attribute / parameter name) and the other structural."""
+        out = []
+        for tid, kinds in self.ax.items():
+            if ("ext", 0) in kinds and ("ext", 1) in kinds:
+                w0, w1 = self.why_all.get((tid, "ext", 0), ""), self.why_all.get((tid, "ext", 1), "")
+                named = [("name" in w or "parameter" in w) and "<-" not in w for w in (w0, w1)]
+                if named[0] != named[1]:
+                    out.append((self.terms[tid], w0, w1))
         return out
